@@ -392,8 +392,78 @@ class Interp:
         m = getattr(self, "st_" + type(st).__name__, None)
         if m is None:
             self.log("unmodelled-stmt", st, what=type(st).__name__)
-            return
+            raise AnalysisError(f"statement kind {type(st).__name__} is not modelled (line {getattr(st, 'lineno', '?')}): skipping it would give a wrong final state")
         m(st)
+
+    # match / case: read as the if / elif ladder it abbreviates (value, singleton, or-, capture / wildcard, fixed-length sequence and keyword class patterns, guards)
+    _match_ids = itertools.count()
+
+    def st_Match(self, st):
+        subj = f"__match_subject_{next(Interp._match_ids)}"
+        self.assign(ast.copy_location(ast.Name(id=subj, ctx=ast.Store()), st), self.eval(st.subject), st)
+        ld = lambda: ast.Name(id=subj, ctx=ast.Load())
+
+        def pat(p, target):
+            """-> (condition expr or None for 'always', [(name, expr)] bindings)"""
+            if isinstance(p, ast.MatchValue):
+                return ast.Compare(left=target, ops=[ast.Eq()], comparators=[p.value]), []
+            if isinstance(p, ast.MatchSingleton):
+                return ast.Compare(left=target, ops=[ast.Is()], comparators=[ast.Constant(value=p.value)]), []
+            if isinstance(p, ast.MatchAs):
+                if p.pattern is None:
+                    return None, ([(p.name, target)] if p.name else [])
+                c_, b_ = pat(p.pattern, target)
+                return c_, b_ + ([(p.name, target)] if p.name else [])
+            if isinstance(p, ast.MatchOr):
+                parts = [pat(q, target) for q in p.patterns]
+                if any(b_ for _, b_ in parts):
+                    raise AnalysisError("match: an or-pattern with captures is not modelled")
+                if any(c_ is None for c_, _ in parts):
+                    return None, []
+                return ast.BoolOp(op=ast.Or(), values=[c_ for c_, _ in parts]), []
+            if isinstance(p, ast.MatchSequence) and not any(isinstance(q, ast.MatchStar) for q in p.patterns):
+                conds = [ast.Compare(left=ast.Call(func=ast.Name(id="len", ctx=ast.Load()), args=[target], keywords=[]), ops=[ast.Eq()], comparators=[ast.Constant(value=len(p.patterns))])]
+                binds = []
+                for i_, q in enumerate(p.patterns):
+                    c_, b_ = pat(q, ast.Subscript(value=target, slice=ast.Constant(value=i_), ctx=ast.Load()))
+                    if c_ is not None:
+                        conds.append(c_)
+                    binds += b_
+                return (conds[0] if len(conds) == 1 else ast.BoolOp(op=ast.And(), values=conds)), binds
+            if isinstance(p, ast.MatchClass) and not p.patterns:
+                conds = [ast.Call(func=ast.Name(id="isinstance", ctx=ast.Load()), args=[target, p.cls], keywords=[])]
+                binds = []
+                for a_, q in zip(p.kwd_attrs, p.kwd_patterns):
+                    c_, b_ = pat(q, ast.Attribute(value=target, attr=a_, ctx=ast.Load()))
+                    if c_ is not None:
+                        conds.append(c_)
+                    binds += b_
+                return (conds[0] if len(conds) == 1 else ast.BoolOp(op=ast.And(), values=conds)), binds
+            raise AnalysisError(f"match: pattern {type(p).__name__} is not modelled")
+
+        def ladder(cases):
+            if not cases:
+                return []
+            c = cases[0]
+            cond, binds = pat(c.pattern, ld())
+            pre = [ast.Assign(targets=[ast.Name(id=n_, ctx=ast.Store())], value=e_) for n_, e_ in binds]
+            rest = ladder(cases[1:])
+            if c.guard is not None and binds:
+                import copy as _copy
+                inner = [ast.If(test=c.guard, body=list(c.body), orelse=_copy.deepcopy(rest))]
+                body = pre + inner
+                test = cond
+            else:
+                body = pre + list(c.body)
+                test = cond if c.guard is None else (c.guard if cond is None else ast.BoolOp(op=ast.And(), values=[cond, c.guard]))
+            if test is None:
+                return body
+            return [ast.If(test=test, body=body, orelse=rest)]
+        stmts = ladder(list(st.cases))
+        for s_ in stmts:
+            ast.copy_location(s_, st)
+            ast.fix_missing_locations(s_)
+        self.exec_block(stmts)
 
     def st_Expr(self, st):
         if isinstance(st.value, ast.Constant):
